@@ -130,6 +130,7 @@ type Frame struct {
 	curIdx   int
 	curReach string
 	curState *State
+	callsiteHits map[*Callsite]int
 	isInit   bool   // executing a package initializer (calls to other initializers are skipped)
 	label    string // prefix for names
 	callerScopes []*modScope
@@ -146,6 +147,7 @@ func (g *Gen) newFrame(fn *ssa.Function, top bool) *Frame {
 	f := &Frame{g: g, fn: fn, vals: map[ssa.Value]*SVal{}, clos: map[ssa.Value]*Closure{}, isTop: top,
 		loops: map[*ssa.BasicBlock]*loopInfo{}, outReach: map[*ssa.BasicBlock]string{}, outState: map[*ssa.BasicBlock]*State{}}
 	f.contract = g.P.contractFor(fn)
+	f.callsiteHits = map[*Callsite]int{}
 	f.label = fn.Name()
 	return f
 }
@@ -715,9 +717,6 @@ func (f *Frame) coerce(v *SVal, t types.Type) *SVal {
 
 func (f *Frame) execBlock(b *ssa.BasicBlock) {
 	for i, ins := range b.Instrs {
-		if f.curReach == "false" {
-			return
-		}
 		f.curIdx = i
 		if f.isTop && f.contract != nil && len(f.contract.Callsites) > 0 {
 			if ci, ok := ins.(ssa.CallInstruction); ok {
@@ -760,7 +759,29 @@ func (f *Frame) checkCallsites(ci ssa.CallInstruction) {
 			}()
 		}
 		g.beginGoal()
-		t := env.evalBool(cs.C.E)
+		var t string
+		skipped := false
+		saveQ, saveQB := g.inQuant, len(g.qbuilding)
+		func() {
+			defer func() {
+				if r := recover(); r != nil {
+					g.inQuant, g.qbuilding = saveQ, g.qbuilding[:saveQB]
+					if se, ok := r.(specErr); ok {
+						// the clause does not type-check at this call site (e.g. a different argument type): not this site
+						g.note("callsite clause %q not applicable at %s: %s", cs.C.Text, f.pos(ci.Pos()), string(se))
+						skipped = true
+						return
+					}
+					panic(r)
+				}
+			}()
+			t = env.evalBool(cs.C.E)
+		}()
+		if skipped {
+			g.endGoal()
+			continue
+		}
+		f.callsiteHits[cs]++
 		o := g.oblige("callsite", f.curReach, t, f.pos(ci.Pos()), "before call of "+cs.Callee+" in "+f.fn.Name())
 		g.endGoal()
 		o.Clause = cs.C.Text
@@ -1375,7 +1396,7 @@ func (f *Frame) makeSlice(x *ssa.MakeSlice) *SVal {
 	if elemTwoLevel(et) {
 		srt := g.elemHeapSort(et)
 		h := g.heapGet(f.curState, elemFam(et), srt)
-		g.heapSet(f.curState, elemFam(et), srt, sStore(h, base, fmt.Sprintf("((as const %s) %s)", arrSort(SBV64, g.W.scalarSort(et)), g.zeroScalar(et))))
+		g.heapSet(f.curState, elemFam(et), srt, sStore(h, base, g.constArray(arrSort(SBV64, g.W.scalarSort(et)), g.W.scalarSort(et), g.zeroScalar(et))))
 	} else {
 		g.note("%s: make([]%s): zero contents of composite elements not modelled", f.fn.String(), et)
 	}
